@@ -243,6 +243,7 @@ func LoadS2(fset *token.FileSet, scratch string) ([]*Pkg, error) {
 		return nil, nil
 	}
 	writeContextPairs(mod)
+	writeVisitorShapes(mod)
 	return LoadDirs(fset, mod, "S2", []string{"./..."})
 }
 
